@@ -69,6 +69,9 @@ fn scan(s: &str) -> Result<Vec<Ev>, String> {
     let b: Vec<char> = s.chars().collect();
     let mut i = 0;
     let mut out = vec![];
+    // the default namespace in force per open element: `script` / `style` hold raw text only as HTML elements, i.e. not under a
+    // default-namespace declaration for a foreign namespace (the property speaks of script and style, the HTML elements)
+    let mut dflt: Vec<(String, Option<String>)> = vec![];   // (name as written, default namespace in force inside)
     let starts = |i: usize, p: &str| -> bool { let pc: Vec<char> = p.chars().collect(); i + pc.len() <= b.len() && b[i..i + pc.len()] == pc[..] };
     while i < b.len() {
         if starts(i, "<!--") {
@@ -93,7 +96,10 @@ fn scan(s: &str) -> Result<Vec<Ev>, String> {
             let mut j = i + 2;
             while j < b.len() && b[j] != '>' { j += 1; }
             if j >= b.len() { return Err("unterminated end tag".into()); }
-            out.push(Ev::End(b[i + 2..j].iter().collect()));
+            let en: String = b[i + 2..j].iter().collect();
+            // void elements have no end tag: close everything down to the element this end tag names
+            if let Some(pos) = dflt.iter().rposition(|(n, _)| *n == en) { dflt.truncate(pos); }
+            out.push(Ev::End(en));
             i = j + 1;
         } else if b[i] == '<' {
             let mut j = i + 1;
@@ -123,8 +129,13 @@ fn scan(s: &str) -> Result<Vec<Ev>, String> {
                     attrs.push((an, None));
                 }
             }
-            let raw = raw_text_element(&name) && !name.contains(':');
+            let own: Option<String> = attrs.iter().find(|(a, _)| a == "xmlns").and_then(|(_, v)| v.clone());
+            let in_force: Option<String> = own.or_else(|| dflt.last().and_then(|(_, d)| d.clone()));
+            let html_scope = match &in_force { None => true, Some(u) => u.is_empty() || u == XHTML || u == XHTML_CRATE };
+            let raw = raw_text_element(&name) && !name.contains(':') && html_scope;
+            let void_like = self_closed;
             out.push(Ev::Start(name.clone(), attrs, self_closed));
+            if !void_like { dflt.push((name.clone(), in_force)); }
             i = j;
             if raw && !self_closed {
                 // raw text up to the matching end tag
